@@ -460,13 +460,19 @@ class Engine:
         sv.add(z3.Not(f))
         return sv.check() == z3.unsat
 
-    def seq_slice(self, s: V, lo: Optional[Any], hi: Optional[Any]) -> V:
+    def seq_slice(self, s: V, lo: Optional[Any], hi: Optional[Any], st: Optional["State"] = None) -> V:
         assert isinstance(s.ty, SeqTy)
         ln = self.seq_len(s)
         take, drop = self.pre.seqf(s.ty, "take"), self.pre.seqf(s.ty, "drop")
 
         def clamp(x: Any) -> Any:
             x = z3.simplify(x)
+            if st is not None and not z3.is_int_value(x) and self.entails_qf(st, z3.And(0 <= x, x <= ln)):
+                return x  # in range under the path condition: no clamping (keeps terms ite-free)
+            if st is not None and z3.is_int_value(x) and x.as_long() > 0 and self.entails_qf(st, x <= ln):
+                return x
+            if st is not None and z3.is_int_value(x) and x.as_long() < 0 and self.entails_qf(st, ln + x >= 0):
+                return ln + x
             if z3.is_int_value(x):
                 n = x.as_long()
                 if n >= 0:
@@ -860,6 +866,9 @@ class Engine:
         self.pre.ax("str.lt_total", z3.ForAll([a, b], z3.Or(lt(a, b), a == b, lt(b, a)), patterns=[lt(a, b)]))
 
     def contains(self, coll: V, x: V, st: State) -> Any:
+        if isinstance(coll.ty, OptTy) and isinstance(coll.ty.inner, (SeqTy, MapTy, SetTy)):
+            self.check(st, z3.Not(self.pre.opt_is_none(coll.ty, coll.t)), "TypeError", "`in` on None")
+            coll = V(self.pre.opt_val(coll.ty, coll.t), coll.ty.inner)
         ty = coll.ty
         if isinstance(ty, MapTy):
             return self.pre.mapf(ty, "has")(coll.t, self.coerce(x, ty.key).t)
@@ -881,7 +890,7 @@ class Engine:
             hi = self.expr(n.slice.upper, st).t if n.slice.upper else None
             if not isinstance(obj.ty, SeqTy):
                 raise Unsupported("slice of non-sequence", n)
-            return self.seq_slice(obj, lo, hi)
+            return self.seq_slice(obj, lo, hi, st)
         key = self.expr(n.slice, st)
         if isinstance(obj.ty, SeqTy):
             i = self.norm_index(obj, self.coerce(key, INT).t, st)
@@ -1162,6 +1171,13 @@ class Engine:
             self.pre.ax(nm, z3.ForAll([x], f(x), patterns=[f(x)]))
         return f(t)
 
+    def forall_pat(self, vs: list[Any], body: Any, patterns: list[Any]) -> Any:
+        """ForAll with the given triggers when they are admissible (ite-free ...), else solver-inferred ones."""
+        try:
+            return z3.ForAll(vs, body, patterns=patterns)
+        except z3.Z3Exception:
+            return z3.ForAll(vs, body)
+
     def mentions_any(self, t: Any, cs: list[Any]) -> bool:
         return any(self.mentions(t, c) for c in cs)
 
@@ -1178,7 +1194,7 @@ class Engine:
             raise Unsupported("list comprehension over a set", n)
         xs = self.as_seq(coll, st)
         xs_orig = xs
-        gfn = self.closed_comprehension(n, gen, xs)
+        gfn = self.closed_comprehension(n, gen, xs, st)
         if not (z3.is_const(xs.t) and xs.t.decl().kind() == z3.Z3_OP_UNINTERPRETED):
             # name the source so that it can occur in (ite-free) patterns
             named = self.fresh(f"csrc{k}", xs.ty)
@@ -1237,17 +1253,31 @@ class Engine:
         self.assume(st, ln_r <= ln_x)
         return r
 
-    def closed_comprehension(self, n: Any, gen: ast.comprehension, xs: V) -> Any:
+    def closed_comprehension(self, n: Any, gen: ast.comprehension, xs: V, st: Optional[State] = None) -> Any:
         """A comprehension whose element / filter expressions mention only the loop
-        target and immutable fields denotes a *function* of the iterated sequence:
-        one global symbol per (element sort, text) with global axioms (pointwise
-        map / order-preserving embedding for filters, plus the homomorphism laws
+        target, immutable fields and plain variables of the enclosing scope denotes a
+        *function* of the iterated sequence and of those variables: one global symbol
+        per (sorts, alpha-normalised text) with global axioms (pointwise map /
+        order-preserving embedding for filters, plus the homomorphism laws
         f([]) = [], f([x]) = ..., f(a + b) = f(a) + f(b) that give lemmas an
         inductive handle).  The same text in code and in a clause is the same term."""
         import hashlib as _h
-        # alpha-normalised: the name of the loop target does not matter
+        # alpha-normalised: the names of the loop target and of the free variables do not matter
         tnames = [x.id for x in ast.walk(gen.target) if isinstance(x, ast.Name)]
         ren = {nm: f"_v{i}" for i, nm in enumerate(tnames)}
+        free: list[str] = []
+        for part in [n.elt] + list(gen.ifs):
+            for x in ast.walk(part):
+                if isinstance(x, ast.Name) and x.id not in ren and x.id not in free:
+                    known = (x.id in self.specs or x.id in self.builtins or x.id in self.contracts or x.id in self.consts
+                             or x.id in self.tenv.records or x.id in self.tenv.aliases or x.id in ("True", "False", "None"))
+                    if not known:
+                        free.append(x.id)
+        if free and (st is None or any(nm not in st.env for nm in free)):
+            return None
+        pvals = [st.env[nm] for nm in free] if free else []  # type: ignore[union-attr]
+        for i, nm in enumerate(free):
+            ren[nm] = f"_p{i}"
 
         class _R(ast.NodeTransformer):
             def visit_Name(s_, node: ast.Name) -> Any:  # noqa: N805
@@ -1255,16 +1285,20 @@ class Engine:
 
         def norm(e: ast.AST) -> str:
             return ast.unparse(_R().visit(copy.deepcopy(e)))
-        text = f"{xs.ty.name}|{norm(gen.target)}|{norm(n.elt)}|{[norm(c) for c in gen.ifs]}"
+        text = f"{xs.ty.name}|{[p.ty.name for p in pvals]}|{norm(gen.target)}|{norm(n.elt)}|{[norm(c) for c in gen.ifs]}"
         tag = _h.sha1(text.encode()).hexdigest()[:8]
         cache = self.__dict__.setdefault("_closed_comp", {})
         if tag in cache:
-            return cache[tag]
+            fn0 = cache[tag]
+            return None if fn0 is None else (lambda xt, _f=fn0, _p=pvals: _f(xt, *[p.t for p in _p]))
         cache[tag] = None
         S = self.sort(xs.ty)
         q = V(z3.Const(f"cq_{tag}", S), xs.ty)
+        pcs = [V(z3.Const(f"cp{i}_{tag}", self.sort(p.ty)), p.ty) for i, p in enumerate(pvals)]
         bv = z3.Int(f"cqi_{tag}")
         gst = State()
+        for nm, pc in zip(free, pcs):
+            gst.env[nm] = pc
         saved_mode, saved_pr, saved_fr = self.mode_spec, self.pending_raises, getattr(self, "fields_read", None)
         self.mode_spec = True
         self.pending_raises = []
@@ -1284,7 +1318,9 @@ class Engine:
             return None
         rty = SeqTy(elt.ty)
         R = self.sort(rty)
-        fn = z3.Function(f"comp_{tag}", S, R)
+        fn_raw = z3.Function(f"comp_{tag}", S, *[self.sort(p.ty) for p in pvals], R)
+        pts = [pc.t for pc in pcs]
+        fn = lambda xt: fn_raw(xt, *pts)  # noqa: E731  (inside the axioms the parameters are the quantified constants)
         ln_x, ln_r = self.pre.seqf(xs.ty, "len"), self.pre.seqf(rty, "len")
         idx_x, idx_r = self.pre.seqf(xs.ty, "idx"), self.pre.seqf(rty, "idx")
         cond_at = lambda i: z3.substitute(z3.And(*conds), (bv, i)) if conds else z3.BoolVal(True)  # noqa: E731
@@ -1295,38 +1331,40 @@ class Engine:
         if not conds and getattr(self, "no_global_map", False):
             return None
         if not conds:
-            A(f"comp.{tag}.len", z3.ForAll([q.t], ln_r(fn(q.t)) == ln_x(q.t), patterns=[fn(q.t)]))
-            A(f"comp.{tag}.idx", z3.ForAll([q.t, i], z3.Implies(inb, idx_r(fn(q.t), i) == elt_at(i)),
+            A(f"comp.{tag}.len", z3.ForAll([q.t] + pts, ln_r(fn(q.t)) == ln_x(q.t), patterns=[fn(q.t)]))
+            A(f"comp.{tag}.idx", z3.ForAll([q.t, i] + pts, z3.Implies(inb, idx_r(fn(q.t), i) == elt_at(i)),
                                            patterns=[idx_r(fn(q.t), i), z3.MultiPattern(fn(q.t), idx_x(q.t, i))]))
         else:
-            emb = z3.Function(f"emb_{tag}", S, T.I, T.I)
-            inv = z3.Function(f"embinv_{tag}", S, T.I, T.I)
-            A(f"comp.{tag}.emb", z3.ForAll([q.t, i], z3.Implies(z3.And(0 <= i, i < ln_r(fn(q.t))), z3.And(
+            emb_raw = z3.Function(f"emb_{tag}", S, T.I, *[self.sort(p.ty) for p in pvals], T.I)
+            emb = lambda s_, i_: emb_raw(s_, i_, *pts)  # noqa: E731
+            inv_raw = z3.Function(f"embinv_{tag}", S, T.I, *[self.sort(p.ty) for p in pvals], T.I)
+            inv = lambda s_, i_: inv_raw(s_, i_, *pts)  # noqa: E731
+            A(f"comp.{tag}.emb", z3.ForAll([q.t, i] + pts, z3.Implies(z3.And(0 <= i, i < ln_r(fn(q.t))), z3.And(
                 0 <= emb(q.t, i), emb(q.t, i) < ln_x(q.t), cond_at(emb(q.t, i)), idx_r(fn(q.t), i) == elt_at(emb(q.t, i)),
                 inv(q.t, emb(q.t, i)) == i)), patterns=[idx_r(fn(q.t), i)]))
-            A(f"comp.{tag}.mono", z3.ForAll([q.t, i, j], z3.Implies(z3.And(0 <= i, i < j, j < ln_r(fn(q.t))), emb(q.t, i) < emb(q.t, j)),
+            A(f"comp.{tag}.mono", z3.ForAll([q.t, i, j] + pts, z3.Implies(z3.And(0 <= i, i < j, j < ln_r(fn(q.t))), emb(q.t, i) < emb(q.t, j)),
                                             patterns=[z3.MultiPattern(emb(q.t, i), emb(q.t, j))]))
-            A(f"comp.{tag}.inv", z3.ForAll([q.t, i], z3.Implies(z3.And(inb, cond_at(i)), z3.And(
+            A(f"comp.{tag}.inv", z3.ForAll([q.t, i] + pts, z3.Implies(z3.And(inb, cond_at(i)), z3.And(
                 0 <= inv(q.t, i), inv(q.t, i) < ln_r(fn(q.t)), emb(q.t, inv(q.t, i)) == i,
                 idx_r(fn(q.t), inv(q.t, i)) == elt_at(i))),
                 patterns=[z3.MultiPattern(fn(q.t), idx_x(q.t, i))]))
-            A(f"comp.{tag}.len", z3.ForAll([q.t], z3.And(0 <= ln_r(fn(q.t)), ln_r(fn(q.t)) <= ln_x(q.t)), patterns=[fn(q.t)]))
+            A(f"comp.{tag}.len", z3.ForAll([q.t] + pts, z3.And(0 <= ln_r(fn(q.t)), ln_r(fn(q.t)) <= ln_x(q.t)), patterns=[fn(q.t)]))
         # homomorphism laws
         emp_x, emp_r = self.pre.fn[f"empty_{xs.ty.name}"], self.pre.fn[f"empty_{rty.name}"]
         unit_x, unit_r = self.pre.seqf(xs.ty, "unit"), self.pre.seqf(rty, "unit")
         app_x, app_r = self.pre.seqf(xs.ty, "app"), self.pre.seqf(rty, "app")
         a, b = z3.Const(f"cga_{tag}", S), z3.Const(f"cgb_{tag}", S)
         x = z3.Const(f"cgx_{tag}", self.sort(xs.ty.elem))
-        A(f"comp.{tag}.empty", fn(emp_x) == emp_r)
-        if not getattr(self, "no_hom", False): A(f"comp.{tag}.app", z3.ForAll([a, b], fn(app_x(a, b)) == app_r(fn(a), fn(b)), patterns=[fn(app_x(a, b))]))
+        A(f"comp.{tag}.empty", z3.ForAll(pts, fn(emp_x) == emp_r, patterns=[fn(emp_x)]) if pts else fn(emp_x) == emp_r)
+        if not getattr(self, "no_hom", False): A(f"comp.{tag}.app", z3.ForAll([a, b] + pts, fn(app_x(a, b)) == app_r(fn(a), fn(b)), patterns=[fn(app_x(a, b))]))
         ux = unit_x(x)
         e0 = z3.substitute(elt.t, (self.seq_idx(q, bv).t, x))
         c0 = z3.substitute(z3.And(*conds), (self.seq_idx(q, bv).t, x)) if conds else z3.BoolVal(True)
         if not self.mentions(e0, bv) and not self.mentions(c0, bv):
-            A(f"comp.{tag}.unit", z3.ForAll([x], fn(ux) == z3.If(c0, unit_r(e0), emp_r), patterns=[fn(ux)]))
+            A(f"comp.{tag}.unit", z3.ForAll([x] + pts, fn(ux) == z3.If(c0, unit_r(e0), emp_r), patterns=[fn(ux)]))
         self.trusted_used.add("comprehensions over closed element/filter expressions denote functions of the iterated sequence (pointwise map / order-preserving filter; f([])=[], f(a+b)=f(a)+f(b))")
-        cache[tag] = fn
-        return fn
+        cache[tag] = fn_raw
+        return lambda xt, _f=fn_raw, _p=pvals: _f(xt, *[p.t for p in _p])
 
     def mentions(self, t: Any, c: Any) -> bool:
         seen = set()
@@ -1479,6 +1517,26 @@ class Engine:
             if opaque:
                 sp.body = None
             self.specs[d.name] = sp
+        # call graph inside this source: a call f -> g is *limited* (goes to g_lim) when g is defined no later than f
+        # and f is reachable from g, i.e. the call closes a recursion cycle (self-recursion included)
+        names = [d.name for d in fns]
+        calls = {d.name: {x.func.id for x in ast.walk(d) if isinstance(x, ast.Call) and isinstance(x.func, ast.Name) and x.func.id in names}
+                 for d in fns}
+
+        def reaches(a: str, b: str) -> bool:
+            seen, stack = set(), [a]
+            while stack:
+                c = stack.pop()
+                for nx in calls.get(c, ()):
+                    if nx == b:
+                        return True
+                    if nx not in seen:
+                        seen.add(nx)
+                        stack.append(nx)
+            return False
+        limited = {f: [g for g in calls[f] if names.index(g) <= names.index(f) and (g == f or reaches(g, f))] for f in names}
+        # other members of f's recursion cycle that f calls "forwards": inside the once-unfolded body of f_lim they are lowered too
+        forward = {f: [g for g in calls[f] if g not in limited[f] and reaches(g, f)] for f in names}
         for sp in [self.specs[d.name] for d in fns]:
             if sp.body is None:
                 continue
@@ -1497,14 +1555,20 @@ class Engine:
                 self.mode_spec = saved
                 self.limit_spec = None
             # replace recursive occurrences f(...) by f_lim(...)
-            bt = self.subst_decl(b.t, sp.decl, sp.decl_lim)
+            bt = b.t
+            for g in limited[sp.name]:
+                bt = self.subst_decl(bt, self.specs[g].decl, self.specs[g].decl_lim)
             lhs = sp.decl(*bvs)
             eqn = self.eq(V(lhs, sp.ret), V(bt, sp.ret)) if not isinstance(sp.ret, (SeqTy, SetTy, MapTy)) else (lhs == bt)
             self.spec_axioms.append((f"spec.{sp.name}.def", z3.ForAll(bvs, eqn, patterns=[lhs], qid=f"spec.{sp.name}.def")))
             self.spec_axioms.append((f"spec.{sp.name}.lim", z3.ForAll(bvs, sp.decl_lim(*bvs) == lhs, patterns=[lhs], qid=f"spec.{sp.name}.lim")))
             if not self.same_term(bt, b.t):
                 # recursive definition: two levels of unfolding ("fuel 2"): f -> f_lim -> f_lim0
-                bt0 = self.subst_decl(b.t, sp.decl, sp.decl_lim0)  # type: ignore[attr-defined]
+                bt0 = b.t
+                for g in limited[sp.name]:
+                    bt0 = self.subst_decl(bt0, self.specs[g].decl, self.specs[g].decl_lim0)  # type: ignore[attr-defined]
+                for g in forward[sp.name]:
+                    bt0 = self.subst_decl(bt0, self.specs[g].decl, self.specs[g].decl_lim)
                 lhs1 = sp.decl_lim(*bvs)
                 eqn1 = self.eq(V(lhs1, sp.ret), V(bt0, sp.ret)) if not isinstance(sp.ret, (SeqTy, SetTy, MapTy)) else (lhs1 == bt0)
                 self.spec_axioms.append((f"spec.{sp.name}.def1", z3.ForAll(bvs, eqn1, patterns=[lhs1], qid=f"spec.{sp.name}.def1")))
